@@ -145,7 +145,11 @@ pub fn corpus() -> Vec<(String, String)> {
 /// Confirmed front-end crashes whose fixes have all landed (DESIGN §7 fix rows): (id, probe text).  Every
 /// check runs them first, in a child process, as hard regression inputs: a crash is a failing input of the
 /// property, reported with the probe's source.  Nothing is gated.
-pub const GATES: [(&str, &str); 13] = [
+pub const GATES: [(&str, &str); 17] = [
+    ("D79", "type G = { v: array<int> }\nimplement Index for G {\n  fn index_get(self, index: int) -> int { self.v[index] }\n  fn index_set(self, index: int, val: int) -> void { self.v[index] = val }\n}\nlet g = G([1, 2, 3])\ng[1] += 2\nprintln(g[1])\n"),
+    ("D80", "fn f(a: int, b: int = { let t = 3; t + 1 }) -> int { a + b }\nprintln(f(1))\n"),
+    ("D82", "use lib1 as u\nlet c = u.Col.Rgb(2, 1)\nlet p = u.Pt(1, 5)\nprintln(u.Pt.m(p, 1))\nlet f = u.sub\nlet k = u.Pt\n\x1etype Col = Rgb(int, int) | Gray\ntype Pt = { x: int, y: int }\ntype Bx<T> = { v: T }\nextend Pt {\n  fn m(self, d: int) -> int { self.x + d }\n  fn mk(a: int) -> Pt { Pt(a, a) }\n}\ninterface Sp {\n  fn say(self: Self) -> string\n}\nimplement Sp for Pt {\n  fn say(self) -> string { \"pt\" }\n}\nfn sub(a: int, b: int = 1) -> int { a - b }\nfn mkpt() -> Pt { Pt(1, 2) }\n"),
+    ("D83", "type Col = Rgb(r: int, g: int = { let t = 5; t }) | Gray\nlet c = Col.Rgb(1)\n"),
     ("D76", "fn f(a, a, b = 3) { a + b }\nprintln(f(1))\n"),
     ("D77", "fn g(x: int) -> int {\n  match { return 5 } { _ -> 1 }\n}\n"),
     ("D45", "let q = 1\ntask {\n  println(q)\n  let r = q + 1\n  r.\n}\n"),
@@ -468,6 +472,124 @@ pub fn literal_edge_texts() -> Vec<(String, String)> {
         v.push((format!("litedge:degenerate{k}"), t.to_string()));
         v.push((format!("litedge:degenerate{k}:in-let"), format!("let s = {t}")));
         v.push((format!("litedge:degenerate{k}:in-call"), format!("println({t})\nlet z = 1\n")));
+    }
+    v
+}
+
+
+pub const NS_LIB: &str = "type Col = Rgb(int, int) | Gray\ntype Pt = { x: int, y: int }\ntype Bx<T> = { v: T }\nextend Pt {\n  fn m(self, d: int) -> int { self.x + d }\n  fn mk(a: int) -> Pt { Pt(a, a) }\n}\ninterface Sp {\n  fn say(self: Self) -> string\n}\nimplement Sp for Pt {\n  fn say(self) -> string { \"pt\" }\n}\nfn sub(a: int, b: int = 1) -> int { a - b }\nfn mkpt() -> Pt { Pt(1, 2) }\n";
+pub const INDEX_DECL: &str = "type G = { v: array<int> }\nimplement Index for G {\n  fn index_get(self, index: int) -> int { self.v[index] }\n  fn index_set(self, index: int, val: int) -> void { self.v[index] = val }\n}\n";
+
+/// DEFAULT-VALUE family: default values of function parameters, lambda parameters, struct fields, variant
+/// fields and methods containing every binding construct, with the default omitted at call sites at top
+/// level, inside functions, lambdas and tasks.
+pub fn default_binding_texts() -> Vec<(String, String)> {
+    let binds: [(&str, &str); 16] = [
+        ("let", "{ let t = 3; t + 1 }"), ("let-tuple", "{ let (p, q) = (1, 2); p + q }"), ("match-bind", "match 3 { n -> n + 1 }"),
+        ("match-tuple", "match (1, 2) { (p, q) -> p + q }"), ("match-variant", "match option.some(2) { .some(v) -> v, .none -> 0 }"),
+        ("for", "{ var s = 0; for i in [1, 2] { s = s + i }; s }"), ("lambda-call", "((z) -> z + 1)(2)"), ("lambda-let", "{ let lam = (z) -> z + 1; lam(2) }"),
+        ("nested-default", "hh()"), ("earlier-param", "{ let t = a; t }"), ("if-let", "if true { let t = 1; t } else { 2 }"), ("while-let", "{ while false { let w = 1 }; 4 }"),
+        ("array-let", "{ let arr = [1, 2]; arr[0] }"), ("nested-block", "{ let t = { let w = 2; w }; t }"), ("shadow", "{ let a = 7; a }"), ("string", "\"s\""),
+    ];
+    let pre = "fn hh(q: int = { let w = 2; w }) -> int { q }\n";
+    let mut v: Vec<(String, String)> = vec![];
+    for (bn, b) in binds {
+        let decls: Vec<(&str, String, Vec<&str>)> = vec![
+            ("fn", format!("fn f(a: int, b: int = {b}) -> int {{ a + b }}"), vec!["f(1)", "f(1, 2)", "f(1, b = 2)", "f(a = 1)"]),
+            ("fn-untyped", format!("fn f(a, b = {b}) {{ a + b }}"), vec!["f(1)", "f(1, 2)"]),
+            ("fn-two", format!("fn f(a: int, b: int = {b}, c: int = {b}) -> int {{ a + b + c }}"), vec!["f(1)", "f(1, c = 2)"]),
+            ("lambda", format!("let f = (a: int, b: int = {b}) -> a + b"), vec!["f(1)", "f(1, 2)"]),
+            ("struct", format!("type S = {{ a: int, b: int = {b} }}"), vec!["S(1).b", "S(1, 2).b", "S(a = 1).b"]),
+            ("variant", format!("type E = V(a: int, b: int = {b}) | W\nfn vb(e: E) -> int {{\n  match e {{\n    .V(x, y) -> y\n    .W -> 0\n  }}\n}}"), vec!["vb(E.V(1))", "vb(E.V(1, 2))", "vb(E.V(a = 1))", "vb(.V(1))"]),
+            ("method", format!("extend int {{\n  fn m(self, b: int = {b}) -> int {{ self + b }}\n}}"), vec!["1.m()", "1.m(2)", "int.m(1)"]),
+            ("impl", format!("interface Im {{\n  fn im(self: Self, b: int = 3) -> int\n}}\nimplement Im for int {{\n  fn im(self, b: int = {b}) -> int {{ self + b }}\n}}"), vec!["1.im()", "Im.im(1)"]),
+        ];
+        for (dn, d, calls) in decls {
+            for (ci, c) in calls.iter().enumerate() {
+                let sites = [
+                    ("top", format!("println({c})")),
+                    ("in-fn", format!("fn caller() {{\n  println({c})\n}}\ncaller()")),
+                    ("in-lambda", format!("let l = () -> {c}\nprintln(l())")),
+                    ("in-task", format!("task {{\n  println({c})\n}}")),
+                ];
+                for (sn, site) in sites {
+                    if ci > 0 && sn != "top" {
+                        continue;
+                    }
+                    v.push((format!("defbind:{bn}:{dn}:call{ci}:{sn}"), format!("{pre}{d}\n{site}\n")));
+                }
+            }
+        }
+    }
+    v
+}
+
+/// NAMESPACE family (two files, `main` + `\x1e` + `lib1`): every declaration kind of the library reached through
+/// `use lib1 as u` in call, constructor, qualifier, pattern, type-annotation and first-class-value position.
+pub fn namespace_texts() -> Vec<(String, String)> {
+    let uses = [
+        "println(u.sub(3, 1))", "println(u.sub(3))", "println(u.sub(a = 3))", "let p = u.Pt(1, 5)\nprintln(p.y)", "let p = u.Pt(x = 1, y = 5)\nprintln(p.x)",
+        "let c = u.Col.Rgb(2, 1)", "let c = u.Col.Gray", "let c: u.Col = .Gray", "let c: u.Col = .Rgb(1, 2)", "let p: u.Pt = u.Pt(1, 2)", "let b: u.Bx<int> = u.Bx(1)",
+        "let p = u.Pt(1, 5)\nprintln(u.Pt.m(p, 1))", "let p = u.Pt(1, 5)\nprintln(p.m(1))", "let p = u.Pt.mk(3)\nprintln(p.x)", "let p = u.mkpt()\nprintln(p.y)",
+        "let p = u.Pt(1, 5)\nprintln(u.Sp.say(p))", "let p = u.Pt(1, 5)\nprintln(p.say())",
+        "let c = u.Col.Rgb(2, 1)\nlet r = match c {\n  u.Col.Rgb(a, b) -> a\n  u.Col.Gray -> 0\n}", "let c = u.Col.Rgb(2, 1)\nlet r = match c {\n  .Rgb(a, b) -> a\n  .Gray -> 0\n}",
+        "let p = u.Pt(1, 5)\nlet u.Pt(a, b) = p\nprintln(a)", "let p = u.Pt(1, 5)\nmatch p {\n  u.Pt(a, b) -> println(a)\n}",
+        "let f = u.sub\nprintln(f(3, 1))", "let k = u.Pt\nlet p = k(1, 2)", "let w = u.Col.Rgb\nlet c = w(1, 2)", "let i = u.Sp", "let e = u.Col", "let z = u", "let m = u.Pt.m",
+        "let fs = [u.sub, u.sub]\nprintln(fs[0](3, 1))", "fn ap(f: (int, int) -> int) -> int { f(3, 1) }\nprintln(ap(u.sub))", "fn tk(p: u.Pt) -> int { p.x }\nprintln(tk(u.Pt(1, 2)))",
+        "fn rt() -> u.Col { u.Col.Gray }\nlet c = rt()", "type Wr = { inner: u.Pt, c: u.Col }\nlet w = Wr(u.Pt(1, 2), u.Col.Gray)\nprintln(w.inner.x)",
+        "extend u.Pt {\n  fn dbl(self) -> int { self.x * 2 }\n}\nprintln(u.Pt(1, 2).dbl())", "implement ToString for u.Pt {\n  fn str(self) -> string { \"p\" }\n}\nprintln(u.Pt(1, 2))",
+        "println(u.nothere)", "println(u.Pt.nothere)", "let c = u.Col.Nope", "println(u.u.sub(1, 2))", "println(u.sub.sub)", "u.Pt(1, 2).x = 3", "var p = u.Pt(1, 2)\np.x += 1\nprintln(p.x)",
+        "task {\n  println(u.sub(3, 1))\n  let c = u.Col.Rgb(1, 2)\n}", "let l = () -> u.Pt.m(u.Pt(1, 2), 3)\nprintln(l())",
+    ];
+    let heads = ["use lib1 as u", "use lib1 as u\nuse lib1", "use lib1 as u\nuse lib1 as w", "use lib1", "use lib1.(sub)\nuse lib1 as u"];
+    let mut v: Vec<(String, String)> = vec![];
+    for (hi, h) in heads.iter().enumerate() {
+        for (ui, us) in uses.iter().enumerate() {
+            let body = if *h == "use lib1" { us.replace("u.", "") } else { us.to_string() };
+            v.push((format!("nsuse:head{hi}:use{ui}"), format!("{h}\n{body}\n\x1e{NS_LIB}")));
+        }
+    }
+    // everything at once
+    v.push(("nsuse:all".into(), format!("use lib1 as u\n{}\n\x1e{NS_LIB}", uses[..35].iter().map(|u| format!("{{\n{u}\n}}")).collect::<Vec<_>>().join("\n"))));
+    v
+}
+
+/// ASSIGNMENT family: every assignment operator on every target kind the grammar allows.
+pub fn assignment_texts() -> Vec<(String, String)> {
+    let ops = ["=", "+=", "-=", "*=", "/=", "%="];
+    let pre = format!("type Pt = {{ x: int, y: float, v: array<int>, s: string }}\ntype Ou = {{ p: Pt }}\n{INDEX_DECL}type Hg = {{ g: G }}\nfn mk() -> Pt {{ Pt(1, 2.0, [1, 2], \"s\") }}\n");
+    let targets: [(&str, &str, &str); 26] = [
+        ("var", "var t = 5", "t"), ("let", "let t = 5", "t"), ("var-float", "var t = 5.0", "t"), ("var-string", "var t = \"a\"", "t"),
+        ("field", "var p = mk()", "p.x"), ("field-let", "let p = mk()", "p.x"), ("field-float", "var p = mk()", "p.y"), ("field-string", "var p = mk()", "p.s"),
+        ("nested-field", "var o = Ou(mk())", "o.p.x"), ("index", "var a = [1, 2, 3]", "a[1]"), ("index-let", "let a = [1, 2, 3]", "a[1]"), ("index-oob", "var a = [1]", "a[7]"),
+        ("nested-index", "var aa = [[1, 2], [3, 4]]", "aa[0][1]"), ("field-of-index", "var ps = [mk(), mk()]", "ps[0].x"), ("index-of-field", "var p = mk()", "p.v[1]"),
+        ("user-index", "var g = G([1, 2, 3])", "g[1]"), ("user-index-let", "let g = G([1, 2, 3])", "g[1]"), ("user-index-nested", "var gs = [G([1, 2]), G([3])]", "gs[0][1]"),
+        ("user-index-in-field", "var h = Hg(G([1, 2]))", "h.g[1]"), ("call-result-field", "let q = 1", "mk().x"), ("call-result-index", "let q = 1", "mk().v[0]"),
+        ("literal", "let q = 1", "1"), ("tuple-elem", "var tp = (1, 2)", "tp"), ("string-index", "var st = \"abc\"", "st[0]"), ("paren", "var t = 5", "(t)"), ("unknown", "let q = 1", "nowhere"),
+    ];
+    let mut v: Vec<(String, String)> = vec![];
+    for (tn, decl, target) in targets {
+        for op in ops {
+            for (rn, rhs) in [("int", "2"), ("float", "2.5"), ("string", "\"z\""), ("self", target)] {
+                if (rn == "float" || rn == "string") && !(tn.contains("float") || tn.contains("string") || op == "=" || op == "+=") {
+                    continue;
+                }
+                v.push((format!("assign:{tn}:{}:{rn}", op.replace('=', "eq")), format!("{pre}{decl}\n{target} {op} {rhs}\nprintln({target})\n")));
+            }
+        }
+        // the same targets inside a function parameter / lambda capture / loop
+        v.push((format!("assign:{tn}:in-fn"), format!("{pre}fn run() {{\n  {decl}\n  {target} += 2\n  {target} = {target}\n  println({target})\n}}\nrun()\n")));
+        v.push((format!("assign:{tn}:in-lambda"), format!("{pre}{decl}\nlet l = () -> {{\n  {target} += 2\n  {target}\n}}\nprintln(l())\n")));
+        v.push((format!("assign:{tn}:in-loop"), format!("{pre}{decl}\nfor i in [1, 2] {{\n  {target} *= i\n}}\nprintln({target})\n")));
+    }
+    for (k, t) in [
+        "fn pa(a: int) -> int {\n  a += 1\n  a\n}\nprintln(pa(1))", "for i in [1, 2] {\n  i += 1\n}", "match 3 {\n  n -> {\n    n -= 1\n  }\n}",
+        "var a = 1\nvar b = 2\na = b = 3", "var a = 1\na += a += 1", "var a = [1]\na[a[0] = 0] = 2", "var a = 1\na =", "var a = 1\n+= 2", "var a = 1\na += \n 2",
+    ]
+    .iter()
+    .enumerate()
+    {
+        v.push((format!("assign:odd{k}"), format!("{t}\n")));
     }
     v
 }
